@@ -212,6 +212,8 @@ class FuncOrder(object):
             return True, "argument of .%s" % fn.attr
         if name in ("partial", "rpartial", "contains", "getattr", "hasattr"):
             return True, "bound as an argument of %s (membership helpers)" % name
+        if name in ("list", "tuple") and self._sorted_right_after(call):
+            return True, "%s(S) bound to a name that is sorted (no key) by the very next statement" % name
         if name in SENSITIVE_CALLS or (isinstance(fn, ast.Attribute) and fn.attr in ("join", "extend", "fromkeys")):
             return False, "%s() consumes the set in hash order" % name
         # a repo function / class: its parameter becomes unordered THERE and is analysed under that typing
@@ -232,6 +234,25 @@ class FuncOrder(object):
                     self.propagate.append((target, pname))
                     return True, "callee %s is analysed with parameter `%s` typed unordered" % (target.split(":")[-1], pname)
         return True, "ASSUMED: callee %s treats this argument order-insensitively" % (name or "<expr>")
+
+    def _sorted_right_after(self, call):
+        """`xs = list(S)` immediately followed by `xs.sort()` (no key): the hash order never escapes"""
+        asg = self.par.get(id(call))
+        if not (isinstance(asg, (ast.Assign, ast.AnnAssign)) and asg.value is call):
+            return False
+        tgt = asg.target if isinstance(asg, ast.AnnAssign) else (asg.targets[0] if len(asg.targets) == 1 else None)
+        if not isinstance(tgt, ast.Name):
+            return False
+        holder = self.par.get(id(asg))
+        for fld in ("body", "orelse", "finalbody"):
+            stmts = getattr(holder, fld, None)
+            if isinstance(stmts, list) and asg in stmts:
+                i = stmts.index(asg)
+                if i + 1 < len(stmts):
+                    nx = stmts[i + 1]
+                    return (isinstance(nx, ast.Expr) and isinstance(nx.value, ast.Call) and isinstance(nx.value.func, ast.Attribute) and nx.value.func.attr == "sort"
+                            and isinstance(nx.value.func.value, ast.Name) and nx.value.func.value.id == tgt.id and not any(k.arg == "key" for k in nx.value.keywords))
+        return False
 
     @staticmethod
     def injective_key(call):
